@@ -5,6 +5,7 @@
 import MotoModel.Props.C05
 import MotoModel.Props.C07
 import MotoModel.Proofs.DiskWriteRead
+import MotoModel.Proofs.DiskExtract
 import MotoModel.Props.C04
 namespace Moto.C02
 open Moto Moto.Disk
@@ -94,5 +95,62 @@ example : C11.WFSide (initFileSystem blankSide) := C04.init_wf blankSide (by
   constructor
   · decide +kernel
   · intro s hs; simp [blankSide] at hs; rw [hs.2]; decide +kernel)
+
+end Moto.C02
+
+namespace Moto.C02
+open Moto Moto.Disk
+
+theorem fresh_has_no_file (k j : Nat) (hk : k < 4) (hj : j < 112) :
+    imgFileAt ((List.replicate 4 blankSide).map initFileSystem) k j = none := by
+  unfold imgFileAt
+  have : ((List.replicate 4 blankSide).map initFileSystem).getD k [] = freshSide := by
+    rw [List.getD_eq_getElem?_getD, List.getElem?_map, List.getElem?_replicate, if_pos hk]
+    simp only [Option.map_some, Option.getD_some, freshSide]
+  rw [this, fileAt_inv fresh_inv j hj]
+  unfold entryAt
+  rw [if_neg]
+  · rfl
+  · intro h
+    exact absurd (fresh_slots_unused j hj) ((liveB_iff _).mp h).1
+
+/-- **C02 (create, then extract: the whole round trip at the level of the command lines)**.
+    For every list of sources with ordinary catalog names (`OrdinarySrc`: no code point 0xFF in the
+    argument; the eleven name bytes the tool stores are 7-bit, without '/', not blank) — any
+    contents, any sizes from 0 to beyond a side, any end-of-side markers, missing files, refusals:
+    `--create` returns 0 and writes the archive of a consistent image `img`; `--extract` of that
+    archive (either verbosity, with or without `--into`) returns 0 and writes exactly the files of
+    `img`, side after side in catalog order, as `target/sideN/NAME.EXT`; and every file of `img` is
+    the exact data of one of the sources, under the entry the tool writes for that source. -/
+theorem create_then_extract (fl : Flavour) (w : Tape.World) (verbose : Bool) (archive : Str) (srcs : List Str)
+    (hs : ∀ src ∈ srcs, OrdinarySrc src) (verbose2 : Bool) (into : Option Str) :
+    ∃ img, ImgOk img
+      ∧ (create fl w verbose archive srcs).status = .ret 0
+      ∧ (create fl w verbose archive srcs).writes = [(archive, save fl img)]
+      ∧ (extract fl verbose2 archive into (save fl img)).status = .ret 0
+      ∧ (extract fl verbose2 archive into (save fl img)).writes = sidesFiles (Tape.targetDirOf archive into) img 0
+      ∧ (∀ k j r c, k < 4 → j < 112 → imgFileAt img k j = some (r, c) →
+          ∃ src ∈ srcs, ∃ name ext kind flag, Offers w src name ext kind flag c ∧ IsRecordOf r name ext kind flag c.length) := by
+  obtain ⟨st, hst, hok, _, hof⟩ := performCore_files w verbose _ srcs fresh_img_ok (fun s h => (hs s h).1)
+  have hnice : ∀ k, k < 4 → NiceSide (st.img.getD k []) := by
+    apply nice_after hof _ hs
+    intro k hk j f hj hf
+    have := fresh_has_no_file k j hk hj
+    unfold imgFileAt at this
+    rw [this] at hf; cases hf
+  obtain ⟨hx1, hx2⟩ := extract_consistent fl verbose2 archive into st.img hok hnice
+  refine ⟨st.img, hok, ?_, ?_, hx1, hx2, ?_⟩
+  · unfold create performOn; rw [if_neg (by simp), hst]
+  · unfold create performOn; rw [if_neg (by simp), hst]
+  · intro k j r c hk hj hf
+    rcases hof k j r c hk hj hf with h | h
+    · rw [fresh_has_no_file k j hk hj] at h; cases h
+    · exact h
+
+/-- non-vacuity: "a.bas" is an ordinary source -/
+example : OrdinarySrc (Tape.str "a.bas") := by
+  refine ⟨by unfold CleanSrc; decide, ?_⟩
+  unfold NiceRec
+  decide +kernel
 
 end Moto.C02
